@@ -47,27 +47,27 @@ type sentMsg struct {
 }
 
 type simClient struct {
-	w        *confWorld
-	idx      int
-	id       string
-	addr     string
-	conn     *simrt.SimConn
-	ws       *websocket.Conn
-	outq     []any // messages (map) or raw []byte waiting for the writer task
-	closing  bool  // writer should close the websocket after draining
-	recv     []recvMsg
-	sent     []sentMsg
-	users    map[string]*userView // as static/protocol.js builds it
-	group    string               // per joined messages
-	username string
-	perms    []string
-	connected  bool
-	handshaken bool
-	readerDone bool
-	closeCode  int
-	closeText  string
-	cutByUs    bool
-	closedByUs bool
+	w           *confWorld
+	idx         int
+	id          string
+	addr        string
+	conn        *simrt.SimConn
+	ws          *websocket.Conn
+	outq        []any // messages (map) or raw []byte waiting for the writer task
+	closing     bool  // writer should close the websocket after draining
+	recv        []recvMsg
+	sent        []sentMsg
+	users       map[string]*userView // as static/protocol.js builds it
+	group       string               // per joined messages
+	username    string
+	perms       []string
+	connected   bool
+	handshaken  bool
+	readerDone  bool
+	closeCode   int
+	closeText   string
+	cutByUs     bool
+	closedByUs  bool
 	joinResults []recvMsg // joined messages
 	// bookkeeping for oracles
 	joinPending int
@@ -146,22 +146,22 @@ func (w *confWorld) memberWindow(id, g string, from, to int64) (throughout, poss
 }
 
 type confWorld struct {
-	addEnter map[string]int64
-	delEnter map[string]srvMemEvent
-	c        *Ctx
-	vfs      *simrt.VFS
-	clients  []*simClient
-	byAddr   map[string]*simClient
-	handledL []*handled
-	inflight map[string]*handled // by task id
-	mux      http.Handler
-	stopped  bool
-	onHandled func(h *handled) // oracle hook at Exit of handleClientMessage
-	onEnter   func(h *handled) // oracle hook at Enter of handleClientMessage
-	memEv     []srvMemEvent    // server-side membership changes (AddClient / DelClient probes)
-	onAction  func(c *simClient, st rtpconn.VerifClientState, typ string, desc string, enter bool)
+	addEnter    map[string]int64
+	delEnter    map[string]srvMemEvent
+	c           *Ctx
+	vfs         *simrt.VFS
+	clients     []*simClient
+	byAddr      map[string]*simClient
+	handledL    []*handled
+	inflight    map[string]*handled // by task id
+	mux         http.Handler
+	stopped     bool
+	onHandled   func(h *handled) // oracle hook at Exit of handleClientMessage
+	onEnter     func(h *handled) // oracle hook at Enter of handleClientMessage
+	memEv       []srvMemEvent    // server-side membership changes (AddClient / DelClient probes)
+	onAction    func(c *simClient, st rtpconn.VerifClientState, typ string, desc string, enter bool)
 	onClientMsg func(sc *simClient, rm recvMsg)
-	panics   int
+	panics      int
 }
 
 var staticDir string
